@@ -45,20 +45,20 @@ func vAssert(c bool, msg string) {
 		panic(vAssertFailed{msg})
 	}
 }
-func vReach(label string)                 {}
-func vNote(key string, v interface{})    {}
-func vSample(key string, v interface{})  {}
-func vSummary(on bool)                    {}
-func vDrawCount() int                     { return 0 }
-func vDraw(i int) uint32                  { return 0 }
-func vDrawNIs(i int, n uint32) bool       { return true }
-func vEngine() bool                       { return false }
-func vOr(a, b bool) bool                  { return a || b }
-func vAnd(a, b bool) bool                 { return a && b }
-func vTainted(v interface{}) bool         { return false }
-func vKnown(key string)                   {}
-func vReplayDraws(from int)               {}
-func vDrawN(i int) uint32                 { return 0 }
+func vReach(label string)               {}
+func vNote(key string, v interface{})   {}
+func vSample(key string, v interface{}) {}
+func vSummary(on bool)                  {}
+func vDrawCount() int                   { return 0 }
+func vDraw(i int) uint32                { return 0 }
+func vDrawNIs(i int, n uint32) bool     { return true }
+func vEngine() bool                     { return false }
+func vOr(a, b bool) bool                { return a || b }
+func vAnd(a, b bool) bool               { return a && b }
+func vTainted(v interface{}) bool       { return false }
+func vKnown(key string)                 {}
+func vReplayDraws(from int)             {}
+func vDrawN(i int) uint32               { return 0 }
 func vParam(name string, def int) int {
 	if v, ok := vRF.Params[name]; ok {
 		return v
